@@ -47,6 +47,10 @@ def gen_tcase(r, k):
             # polynomial combination (componentExp 2) on unit coefficients: keeps every energy below 2^53 (exact in doubles)
             x["coeff"] = [r.choice([1, -1]) for _ in range(nc)]
             x["exp"] = [r.choice([1, 2]) for _ in range(nc)]
+        elif nc <= 3 and r.random() < 0.15:
+            # scripted variable (scriptedFunction vsum): the callback receives EVERY component value, enabled or not
+            x["coeff"] = [1] * nc
+            x["scripted"] = True
         vars_.append(x)
     biases = []
     own = []
@@ -109,6 +113,8 @@ def tcase_config(c):
         L += ["colvar {", "  name v%d" % v]
         if x["tsf"] > 1:
             L += ["  timeStepFactor %d" % x["tsf"]]
+        if x.get("scripted"):
+            L += ["  scriptedFunction vsum"]
         for i, co in enumerate(x["coeff"]):
             atom += 1
             L += ["  distanceZ {", "    name c%d" % i, "    componentCoeff %d" % co] + (["    componentExp %d" % x["exp"][i]] if x.get("exp") and x["exp"][i] != 1 else []) + [
@@ -153,7 +159,7 @@ def tcase_scenario(c, smp):
 def tcase_model_line(c, mode):
     P = ["CASE", mode, str(len(c["vars"]))]
     for x in c["vars"]:
-        P += [str(x["tsf"]), str(len(x["coeff"]))] + [str(q) for q in x["coeff"]] + [str(q) for q in x.get("exp", [1] * len(x["coeff"]))]
+        P += [str(x["tsf"]), str(len(x["coeff"]))] + [str(q) for q in x["coeff"]] + [str(q) for q in x.get("exp", [1] * len(x["coeff"]))] + ["1" if x.get("scripted") else "0"]
     P += [str(len(c["biases"]))]
     for x in c["biases"]:
         P += [str(x["tsf"]), str(len(x["vars"]))] + [str(v) for v in x["vars"]] + [str(x["k"])] + [str(q) for q in x["centers"]]
@@ -1189,7 +1195,7 @@ def write_gen_footprints(derived, rich=()):
         if t is None:
             continue
         vs = coq_list(["mkVar %d %s [] %s %s" % (x["tsf"], coq_list(["true" if f else "false" for f in flags[v]]), coq_list([coq_z(q) for q in x["coeff"]]),
-                                             coq_list([str(q) for q in x.get("exp", [])]))
+                                             coq_list([str(q) for q in x.get("exp", [])])) + (" true" if x.get("scripted") else " false")
                        for v, x in enumerate(c["vars"])])
         bs = coq_list(["mkBias %d %s %s %s" % (x["tsf"], coq_list([str(v) for v in x["vars"]]), coq_z(x["k"]), coq_list([coq_z(q) for q in x["centers"]]))
                        for x in c["biases"]])
@@ -1218,7 +1224,7 @@ def write_gen_footprints(derived, rich=()):
 def foot_model_line(c, t, flags):
     P = ["FOOT", str(t), str(len(c["vars"]))]
     for v, x in enumerate(c["vars"]):
-        P += [str(x["tsf"]), str(len(x["coeff"]))] + [str(int(f)) for f in flags[v]] + [str(q) for q in x["coeff"]] + [str(q) for q in x.get("exp", [1] * len(x["coeff"]))]
+        P += [str(x["tsf"]), str(len(x["coeff"]))] + [str(int(f)) for f in flags[v]] + [str(q) for q in x["coeff"]] + [str(q) for q in x.get("exp", [1] * len(x["coeff"]))] + ["1" if x.get("scripted") else "0"]
     P += [str(len(c["biases"]))]
     for x in c["biases"]:
         P += [str(x["tsf"]), str(len(x["vars"]))] + [str(v) for v in x["vars"]] + [str(x["k"])] + [str(q) for q in x["centers"]]
